@@ -123,10 +123,27 @@ def judge(stats, report, op, a, b=None):
     if not ceq(got[1], want, rtol=1e-9, atol=1e-12):
         cat = category(want, got[1])
         if cat == 'kind-only':
-            cat = 'kind-num'
+            # integers and reals side by side (in an operand, between the operands, or in the expected result) is the
+            # situation the homogeneous-array representation cannot express; a kind change without it is something else
+            kinds = set()
+            for o in operands + (want,):
+                _leaf_kinds(o, kinds)
+            cat = 'kind-num-mixed' if {'i', 'r'} <= kinds else 'kind-num'
         elif cat in ('value', 'structure') and _kinds_only_strchar(want, got[1]):
             cat = 'kind-text'
         report(f"{verb}/{tag}/{shapes}/{cat}", case, expected=show(want)[:120], observed=show(got[1])[:120])
+
+
+def _leaf_kinds(c, acc):
+    if c[0] == 'l':
+        for x in c[1]:
+            _leaf_kinds(x, acc)
+    elif c[0] == 'd':
+        for k_, v_ in c[1]:
+            _leaf_kinds(k_, acc)
+            _leaf_kinds(v_, acc)
+    else:
+        acc.add(c[0])
 
 
 def _depth(c):
